@@ -60,33 +60,26 @@ example : (SimpleAbs.trySimple (ofStr "https://EXAMPLE.com?q#f")).map (fun r => 
     some (some (ofStr "example.com"), ofStr "/", some (ofStr "q"), some (ofStr "f")) := by decide +kernel
 example : SimpleAbs.trySimple (ofStr "http://example.com/a/../b") = none := by decide +kernel
 
-/-- **the parser's state machine is the Standard's parser** on every input without a base whose scheme is not `file`
-    (special: http, https, ws, wss, ftp in any letter case; or not special: authority, path-only and opaque-path URLs)
-    or that has no scheme at all: `parse_url_impl<ada::url>` (`Model/ParseSpecial.lean`: tab/newline removal, C0
-    trimming, `prune_hash`, SCHEME_START, SCHEME with `parse_scheme`, SPECIAL_AUTHORITY_SLASHES,
-    SPECIAL_AUTHORITY_IGNORE_SLASHES, PATH_OR_AUTHORITY, the `do … while` of AUTHORITY with its credential accumulation
-    over several '@' and both delimiter scans, HOST with `get_host_delimiter_location` and `parse_host` (empty hosts of
-    non-special schemes included), PORT with `parse_port` and its trailing-content check, PATH_START, PATH through
-    `parse_prepared_path`, OPAQUE_PATH with its trailing-space rule, QUERY with either encode set, the fragment, and the
-    fast path in front of it all) answers exactly the record `Spec.parse` builds - failure for failure, field for field.
+/-- **the parser's state machine is the Standard's parser, for every input without a base**: `parse_url_impl<ada::url>`
+    (`Model/ParseSpecial.lean`: tab/newline removal, C0 trimming, `prune_hash`, SCHEME_START, SCHEME with
+    `parse_scheme`, SPECIAL_AUTHORITY_SLASHES, SPECIAL_AUTHORITY_IGNORE_SLASHES, PATH_OR_AUTHORITY, the `do … while` of
+    AUTHORITY with its credential accumulation over several '@' and both delimiter scans, HOST with
+    `get_host_delimiter_location` and `parse_host` (empty hosts of non-special schemes included), PORT with `parse_port`
+    and its trailing-content check, PATH_START, PATH through `parse_prepared_path`, OPAQUE_PATH with its trailing-space
+    rule, FILE, FILE_SLASH and FILE_HOST with the drive-letter test and the `localhost` rule, QUERY with either encode
+    set, the fragment, and the fast path in front of it all) answers exactly the record `Spec.parse` builds - failure
+    for failure, field for field - whatever the scheme, or when there is none.
     `ada::idna::to_ascii` is a parameter (its answers are assumed ASCII lower case and the identity on ASCII domains
     without an ACE label - `IdnaAt`; C06 decides the function itself).  *Partial*: the statement carries the side
     condition of `Props/C03.url_set_host_end_to_end_partial` - no '/', '?' (or '\\' under a special scheme) between a
     '[' and the next ']' in the text behind the credentials (`get_host_delimiter_location` jumps to the ']' where the
-    Standard's host state stops at the delimiter; both then fail in `parse_host`, which the proof does not follow) -
-    `bracket_condition_plain` gives the plain sufficient condition "no '[' in the input"; `file` URLs and inputs with a
-    base are outside this model and are compared by the correspondence run only. -/
+    Standard's host state stops at the delimiter; both then fail in `parse_host`, which the proof does not follow;
+    `file` URLs never get there) - `bracket_condition_plain` gives the plain sufficient condition "no '[' in the
+    input"; inputs with a base and the `url_aggregator` instantiation are compared by the correspondence run only. -/
 theorem parser_no_base_partial (idna : Idna) (input : Bytes) (hid : ∀ d, HP.IdnaAt idna d)
-    (hclean : HS.bracketClean (ParseSpecial.schemeSpecial input) false (ParseSpecial.hostStart input) = true)
-    (hin : PS.inScope input = true) :
+    (hclean : HS.bracketClean (ParseSpecial.schemeSpecial input) false (ParseSpecial.hostStart input) = true) :
     ParseSpecial.parseNoBase idna input = PS.outOf (parse idna input none) :=
-  PS.parseNoBase_spec idna input hid hclean hin
-
-/-- the model leaves its scope (`Out.other`) only on inputs that are out of scope (`file`) -/
-theorem parser_no_base_scope (idna : Idna) (input : Bytes) (hid : ∀ d, HP.IdnaAt idna d)
-    (hclean : HS.bracketClean (ParseSpecial.schemeSpecial input) false (ParseSpecial.hostStart input) = true)
-    (ho : ParseSpecial.parseNoBase idna input = .other) : PS.inScope input = false :=
-  PS.parseNoBase_other idna input hid hclean ho
+  PS.parseNoBase_spec idna input hid hclean
 
 /-- the side condition holds for every input without a '[' -/
 theorem bracket_condition_plain (input : Bytes) (h : (0x5B : UInt8) ∉ input) :
@@ -94,10 +87,9 @@ theorem bracket_condition_plain (input : Bytes) (h : (0x5B : UInt8) ∉ input) :
   PS.clean_of_no_bracket input h
 
 /-- the hypotheses are satisfiable, and the slow route is taken: credentials with two '@', upper-case scheme and host, a
-    non-default port, dot segments, query and fragment; an IPv6 host inside brackets; a failure; a scheme that is not
+    non-default port, dot segments, query and fragment; an IPv6 host inside brackets; a failure; file URLs; a scheme that is not
     special with an empty host, with an opaque path that ends in a space, with a path only -/
-example : PS.inScope (ofStr " HtTp://u@s:p@w@EXAMPLE.com:8080/a/../b c?q r#f g") = true ∧
-    HS.bracketClean true false (ParseSpecial.hostStart (ofStr " HtTp://u@s:p@w@EXAMPLE.com:8080/a/../b c?q r#f g")) = true ∧
+example : HS.bracketClean true false (ParseSpecial.hostStart (ofStr " HtTp://u@s:p@w@EXAMPLE.com:8080/a/../b c?q r#f g")) = true ∧
     ParseSpecial.parseNoBase C10.asciiIdna (ofStr " HtTp://u@s:p@w@EXAMPLE.com:8080/a/../b c?q r#f g") =
       .ok { scheme := ofStr "http", special := true, username := ofStr "u%40s", password := ofStr "p%40w",
             host := some (ofStr "example.com"), port := some 8080, path := ofStr "/b%20c", query := some (ofStr "q%20r"),
@@ -107,7 +99,13 @@ example : HS.bracketClean true false (ParseSpecial.hostStart (ofStr "wss:\\\\[1:
       .ok { scheme := ofStr "wss", special := true, username := [], password := [], host := some (ofStr "[1::2]"),
             port := none, path := ofStr "/x", query := none, hash := none, opq := false } := by decide +kernel
 example : ParseSpecial.parseNoBase C10.asciiIdna (ofStr "https://user@:80/") = .invalid ∧
-    ParseSpecial.parseNoBase C10.asciiIdna (ofStr "file://x") = .other := by decide +kernel
+    ParseSpecial.parseNoBase C10.asciiIdna (ofStr "file://LOCALHOST\\C|/../x?q") =
+      .ok { scheme := ofStr "file", special := true, username := [], password := [], host := some [],
+            port := none, path := ofStr "/C:/x", query := some (ofStr "q"), hash := none, opq := false } ∧
+    ParseSpecial.parseNoBase C10.asciiIdna (ofStr "file://C|/a") =
+      .ok { scheme := ofStr "file", special := true, username := [], password := [], host := some [],
+            port := none, path := ofStr "/C:/a", query := none, hash := none, opq := false } ∧
+    ParseSpecial.parseNoBase C10.asciiIdna (ofStr "file://a b/") = .invalid := by decide +kernel
 example : ParseSpecial.schemeSpecial (ofStr "foo://?a'b") = false ∧
     ParseSpecial.parseNoBase C10.asciiIdna (ofStr "foo://?a'b") =
       .ok { scheme := ofStr "foo", special := false, username := [], password := [], host := some [],
